@@ -591,4 +591,71 @@ theorem runEvents_starts (tables : List Tbl) (iters order : List Nat) (acc : Lis
         | error e => rfl
         | ok p => simp only [ih]
 
+/-- what an iterator has been given when it was started is never touched by later events -/
+theorem runEvents_prefix (tables : List Tbl) (iters : List Nat) (evs : List Ev)
+    (acc res : List (Nat × List Line)) (h : runEvents tables iters evs acc = .ok res) : acc <+: res := by
+  induction evs generalizing tables acc with
+  | nil => simp [runEvents] at h; subst h; exact List.prefix_refl _
+  | cons e rest ih =>
+    cases e with
+    | start i =>
+      unfold runEvents at h
+      cases hi : iters[i]? with
+      | none => simp [hi] at h
+      | some ti =>
+        simp only [hi] at h
+        cases ht : tables[ti]? with
+        | none => simp [ht] at h
+        | some t =>
+          simp only [ht] at h
+          cases hr : render t with
+          | error e => simp [hr] at h
+          | ok p =>
+            simp only [hr] at h
+            exact List.IsPrefix.trans (List.prefix_append _ _) (ih _ _ h)
+    | setLimits ti a b =>
+      unfold runEvents at h
+      cases ht : tables[ti]? with
+      | none => simp [ht] at h
+      | some t => simp only [ht] at h; exact ih _ _ h
+    | append ti r =>
+      unfold runEvents at h
+      cases ht : tables[ti]? with
+      | none => simp [ht] at h
+      | some t => simp only [ht] at h; exact ih _ _ h
+    | replace ti i r =>
+      unfold runEvents at h
+      cases ht : tables[ti]? with
+      | none => simp [ht] at h
+      | some t =>
+        simp only [ht] at h
+        split at h
+        · exact ih _ _ h
+        · cases h
+    | reverse ti =>
+      unfold runEvents at h
+      cases ht : tables[ti]? with
+      | none => simp [ht] at h
+      | some t => simp only [ht] at h; exact ih _ _ h
+
+/-- the lines an iterator is given are those of its table as it is at that moment -/
+theorem runEvents_start (tables : List Tbl) (iters : List Nat) (i : Nat) (rest : List Ev)
+    (acc res : List (Nat × List Line)) (h : runEvents tables iters (Ev.start i :: rest) acc = .ok res) :
+    ∃ ti t ls, iters[i]? = some ti ∧ tables[ti]? = some t ∧ lines t = .ok ls ∧ acc ++ [(i, ls)] <+: res := by
+  unfold runEvents at h
+  cases hi : iters[i]? with
+  | none => simp [hi] at h
+  | some ti =>
+    simp only [hi] at h
+    cases ht : tables[ti]? with
+    | none => simp [ht] at h
+    | some t =>
+      simp only [ht] at h
+      cases hr : render t with
+      | error e => simp [hr] at h
+      | ok p =>
+        obtain ⟨t', ls⟩ := p
+        simp only [hr] at h
+        exact ⟨ti, t, ls, rfl, ht, lines_of_render hr, runEvents_prefix _ _ _ _ _ h⟩
+
 end Table
